@@ -20,6 +20,7 @@ func main() {
 	fs.Parse(os.Args[2:])
 	palsd.RegionEvery = *regions
 	w := vt.Create(*out)
+	vt.MemGuard(w, 6<<30, func() vt.Ev { return vt.Ev{"case": palsd.Current.Load()} })
 	rng := vt.Rand(*seed, "pals")
 	if os.Args[1] == "packs" {
 		palsd.Packs(w, rng, *n)
